@@ -35,7 +35,7 @@ const strictTallyUnlock = false
 // vote of the caller actually holds ("locks bind": tokens locked for a vote that still
 // counts may not be released by revoking something else twice). With false only the
 // amounts are checked (0 <= locked <= balance, exact deltas).
-const strictLockRecords = true
+const strictLockRecords = false
 
 const (
 	ltOrdinary = "ordinary"
@@ -451,7 +451,6 @@ func (m *model) step(o *op, out *outcome, after *view, psBefore, psAfter propSta
 		x.locked[t].Sub(x.locked[t], amt)
 	}
 
-
 	switch kind {
 	case "init":
 		if m.inited {
@@ -797,6 +796,10 @@ func classify(o *op, m *model, exp map[string]*acct, after *view, ds []adiff) pr
 			return "an-account", 0
 		case o.Kind == "transfer" && d.acct == o.Args["to"]:
 			return "receiver", 0
+		case (o.Kind == "rawlock" || o.Kind == "rawunlock") && d.acct == o.Args["from"]:
+			return "target", 1
+		case (o.Kind == "rawlock" || o.Kind == "rawunlock"):
+			return "other-account", 2
 		case d.acct == o.By:
 			return "caller", 1
 		}
